@@ -428,4 +428,9 @@ def main():
 
 
 if __name__ == "__main__":
-    sys.exit(main())
+    _code = main()
+    sys.stdout.flush()
+    sys.stderr.flush()
+    # not sys.exit: at interpreter shutdown Python joins the worker threads of every ThreadPoolExecutor (qiskit's PrimitiveJob uses one), and a
+    # worker that is blocked inside a deadlocked implementation under test would keep the finished check alive forever
+    os._exit(_code)
